@@ -576,6 +576,10 @@ mod t {
                 let _ = f.decompress();
                 let ks = cascette_crypto::TactKeyStore::new();
                 let _ = f.decompress_with_keys(&ks);
+                // with the key the encrypted seeds name: the decryption path behind the key lookup
+                let mut ks = cascette_crypto::TactKeyStore::empty();
+                ks.add(cascette_crypto::TactKey::new(BLTE_SEED_KEY_NAME, BLTE_SEED_KEY));
+                let _ = f.decompress_with_keys(&ks);
                 true
             }
             Err(_) => false,
@@ -599,9 +603,27 @@ mod t {
                 }
             }
         }
+        // encrypted chunks (the builder writes 4-byte IVs; a substituted IV-size byte reaches the
+        // 8-byte branch): tiny payloads put the end of the chunk right behind the E-header
+        for (label, payload) in [("0B", &b""[..]), ("2B", &b"ab"[..]), ("29B", &b"hello hello hello hello world"[..])] {
+            for (cn, spec) in [
+                ("salsa20", cascette_formats::blte::EncryptionSpec::salsa20(BLTE_SEED_KEY_NAME, [0xFF, 0xFF, 0x01, 0x80])),
+                ("arc4", cascette_formats::blte::EncryptionSpec::arc4(BLTE_SEED_KEY_NAME, [0xFF, 0xFF, 0x01, 0x80])),
+            ] {
+                let b = cascette_formats::blte::BlteBuilder::new().with_compression(cascette_formats::blte::CompressionMode::None).with_encryption(spec, BLTE_SEED_KEY);
+                let Ok(b) = b.add_data(payload) else { continue };
+                if let Ok(f) = b.build() {
+                    if let Ok(bytes) = CascFormat::build(&f) {
+                        v.push((format!("built:blte-encrypted-{cn}-{label}"), bytes));
+                    }
+                }
+            }
+        }
         v.extend(fixtures("tvfs", &[".blte"]).into_iter().take(1));
         v
     }
+    const BLTE_SEED_KEY_NAME: u64 = 0x0123_4567_89AB_CDEF;
+    const BLTE_SEED_KEY: [u8; 16] = [0x00, 0x11, 0x22, 0x33, 0x44, 0x55, 0x66, 0x77, 0x88, 0x99, 0xAA, 0xBB, 0xCC, 0xDD, 0xEE, 0xFF];
 
     pub fn encoding_run(d: &[u8]) -> bool {
         EncodingFile::parse(d).is_ok()
